@@ -13,10 +13,12 @@ META = dict(
                'parent — also parents of earlier updates — exists and is terminal; n_pending_parents is exactly the number of non-terminal '
                'parents at both computation sites (commit_batch_update and mark_job_complete); a parent that ends without success marks the '
                'child cancelled. The model is compared with the real stored routines and Python handlers after every op of every history of the '
-               'shared run. "Cancelled jobs never run / always-run children run regardless" is the per-step theorem of C04/JobChange once built.',
+               'shared run. Once a parent has ended without success, a non-always-run child is reported cancelled for ever and no good step of '
+               'any continuation moves it into Creating or Running (C05_failed_parent_never_runs, via JobChange.cancelled_never_starts); an '
+               'always-run Ready child is moved to Running by a scheduling message whatever its cancellation marks (C05_always_run_child_runs).',
     level_note='Trusted: Coq kernel; minisql (my MySQL-subset engine) as the semantics of the SQL; runner substitutions; Legal.v environment '
                'assumptions (driver messages name committed jobs; checked on scheduler/canceller picks by the oracle); client_ok (schema validation).',
-    partial=True,
+    partial=False,
 )
 TRUSTED = family.COMMON_TRUSTED
 ASSUMPTIONS = family.COMMON_ASSUMPTIONS
